@@ -814,16 +814,18 @@ func boolKnowledge(at ssa.Instruction, same func(ssa.Value) bool) (isTrue, isFal
 // blocked?  Paths follow CFG successors; Panic terminates a path.
 func reach(fn *ssa.Function, from ssa.Instruction, target, blocked func(ssa.Instruction) bool) (ssa.Instruction, bool) {
 	type pt struct {
-		b *ssa.BasicBlock
-		i int
+		b    *ssa.BasicBlock
+		i    int
+		pred *ssa.BasicBlock // the block this one was entered from (nil: unknown)
 	}
+	type edge struct{ from, to *ssa.BasicBlock }
 	var start pt
 	if from == nil {
-		start = pt{fn.Blocks[0], 0}
+		start = pt{fn.Blocks[0], 0, nil}
 	} else {
-		start = pt{from.Block(), instrIdx(from) + 1}
+		start = pt{from.Block(), instrIdx(from) + 1, nil}
 	}
-	seenBlockStart := map[*ssa.BasicBlock]bool{}
+	seenEdge := map[edge]bool{}
 	stack := []pt{start}
 	for len(stack) > 0 {
 		p := stack[len(stack)-1]
@@ -842,14 +844,94 @@ func reach(fn *ssa.Function, from ssa.Instruction, target, blocked func(ssa.Inst
 		if stopped {
 			continue
 		}
-		for _, s := range p.b.Succs {
-			if !seenBlockStart[s] {
-				seenBlockStart[s] = true
-				stack = append(stack, pt{s, 0})
+		for _, s := range feasibleSuccs(p.pred, p.b) {
+			if !seenEdge[edge{p.b, s}] {
+				seenEdge[edge{p.b, s}] = true
+				stack = append(stack, pt{s, 0, p.b})
 			}
 		}
 	}
 	return nil, false
+}
+
+// feasibleSuccs: the successors of b a path entering it from pred can take. A block that merges several values of one
+// variable and branches on that variable at once (`err := <merge>; if err != nil`, which is what a helper expanded in
+// place leaves behind) only has the successor the incoming value selects.
+func feasibleSuccs(pred, b *ssa.BasicBlock) []*ssa.BasicBlock {
+	if pred == nil || len(b.Instrs) == 0 || len(b.Succs) != 2 {
+		return b.Succs
+	}
+	iff, ok := b.Instrs[len(b.Instrs)-1].(*ssa.If)
+	if !ok {
+		return b.Succs
+	}
+	idx := -1
+	for i, q := range b.Preds {
+		if q == pred {
+			if idx >= 0 {
+				return b.Succs // two edges from the same block
+			}
+			idx = i
+		}
+	}
+	if idx < 0 {
+		return b.Succs
+	}
+	cond := iff.Cond
+	neg := false
+	for {
+		u, ok := cond.(*ssa.UnOp)
+		if !ok || u.Op != token.NOT {
+			break
+		}
+		cond, neg = u.X, !neg
+	}
+	var truth, known bool
+	switch x := cond.(type) {
+	case *ssa.Phi:
+		if x.Block() == b && idx < len(x.Edges) {
+			if k, ok := constBool(x.Edges[idx]); ok {
+				truth, known = k, true
+			}
+		}
+	case *ssa.BinOp:
+		if x.Op != token.EQL && x.Op != token.NEQ {
+			return b.Succs
+		}
+		for _, pr := range [][2]ssa.Value{{x.X, x.Y}, {x.Y, x.X}} {
+			phi, ok := pr[0].(*ssa.Phi)
+			if !ok || phi.Block() != b || idx >= len(phi.Edges) {
+				continue
+			}
+			in := phi.Edges[idx]
+			if isNilConst(pr[1]) {
+				switch {
+				case isNilConst(in):
+					truth, known = true, true
+				case producesNonNilError(in) || producesNonNilError(stripConv(in)):
+					truth, known = false, true
+				}
+			} else if k, ok := constInt(pr[1]); ok {
+				if k2, ok := constInt(in); ok {
+					truth, known = k == k2, true
+				}
+			}
+			if known && x.Op == token.NEQ {
+				truth = !truth
+			}
+			break
+		}
+	}
+	if !known {
+		return b.Succs
+	}
+	if neg {
+		truth = !truth
+	}
+	if truth {
+		return b.Succs[:1]
+	}
+	return b.Succs[1:]
 }
 
 func isReturn(in ssa.Instruction) bool { _, ok := in.(*ssa.Return); return ok }
@@ -1893,6 +1975,9 @@ func valueCases(v ssa.Value, at *ssa.BasicBlock) []valCase {
 			r := resolve(v)
 			if phi, ok := r.(*ssa.Phi); ok {
 				for i, pred := range phi.Block().Preds {
+					if edgeContradicts(phi.Block(), i, conds) {
+						continue // what is known at the use about another variable merged in the same place rules this edge out
+					}
 					ec := append(append(append([]condEdge{}, dominatingConds(pred)...), edgeCond(pred, phi.Block())...), conds...)
 					expand(phi.Edges[i], ec, depth+1)
 				}
@@ -1904,6 +1989,58 @@ func valueCases(v ssa.Value, at *ssa.BasicBlock) []valCase {
 	}
 	expand(v, dominatingConds(at), 0)
 	return out
+}
+
+// edgeContradicts: one of the conditions tests a value merged in block b (a phi of b) and does not hold for what comes
+// in over b's i-th edge (`ok, err := <merge>; if ok { return }; ... err ...`: the edges with ok == true are not ways to
+// reach the use of err).
+func edgeContradicts(b *ssa.BasicBlock, i int, conds []condEdge) bool {
+	for _, ce := range conds {
+		cond, taken := ce.cond, ce.taken
+		for {
+			u, ok := cond.(*ssa.UnOp)
+			if !ok || u.Op != token.NOT {
+				break
+			}
+			cond, taken = u.X, !taken
+		}
+		switch x := cond.(type) {
+		case *ssa.Phi:
+			if x.Block() == b && i < len(x.Edges) {
+				if k, ok := constBool(x.Edges[i]); ok && k != taken {
+					return true
+				}
+			}
+		case *ssa.BinOp:
+			if x.Op != token.EQL && x.Op != token.NEQ {
+				continue
+			}
+			for _, pr := range [][2]ssa.Value{{x.X, x.Y}, {x.Y, x.X}} {
+				phi, ok := pr[0].(*ssa.Phi)
+				if !ok || phi.Block() != b || i >= len(phi.Edges) {
+					continue
+				}
+				in := phi.Edges[i]
+				var eq, known bool
+				if isNilConst(pr[1]) {
+					switch {
+					case isNilConst(in):
+						eq, known = true, true
+					case producesNonNilError(in) || producesNonNilError(stripConv(in)):
+						eq, known = false, true
+					}
+				} else if k, ok := constInt(pr[1]); ok {
+					if k2, ok := constInt(in); ok {
+						eq, known = k == k2, true
+					}
+				}
+				if known && (eq == (x.Op == token.EQL)) != taken {
+					return true
+				}
+			}
+		}
+	}
+	return false
 }
 
 // throughStructCopy: a field read from a local struct variable that was assigned exactly once, as a whole
@@ -2337,6 +2474,11 @@ func (c *Ctx) newStateRule(rule string) {
 		if !ok {
 			continue
 		}
+		if c.transientNewStruct(pkg, tn, nt.Type()) {
+			// a struct type the reference tree does not have whose values live only in locals, parameters and results
+			// (no field, package variable or interface ever holds one): it carries values within one call, not state
+			continue
+		}
 		for i := 0; i < st.NumFields(); i++ {
 			f := st.Field(i)
 			if baselineFields[pkg.Pkg.Path()+"."+tn+"."+f.Name()] {
@@ -2377,6 +2519,107 @@ func (c *Ctx) newStateRule(rule string) {
 		}
 	}
 	c.note("new-state rule: %d fields / variables not in the reference tree examined", n)
+}
+
+// transientNewStruct: the struct type tn has no field in the reference tree (the type is new) and nothing that outlives a
+// call can hold one of its values: no struct field or package-level variable has a type containing it, and no value of it
+// (or pointer to it) is converted to an interface, sent on a channel or captured by a closure.
+func (c *Ctx) transientNewStruct(pkg *ssa.Package, tn string, t types.Type) bool {
+	pre := pkg.Pkg.Path() + "." + tn + "."
+	for k := range baselineFields {
+		if strings.HasPrefix(k, pre) {
+			return false
+		}
+	}
+	var contains func(u types.Type, seen map[types.Type]bool) bool
+	contains = func(u types.Type, seen map[types.Type]bool) bool {
+		if types.Identical(u, t) {
+			return true
+		}
+		if seen[u] {
+			return false
+		}
+		seen[u] = true
+		switch x := u.(type) {
+		case *types.Named:
+			return contains(x.Underlying(), seen)
+		case *types.Pointer:
+			return contains(x.Elem(), seen)
+		case *types.Slice:
+			return contains(x.Elem(), seen)
+		case *types.Array:
+			return contains(x.Elem(), seen)
+		case *types.Chan:
+			return contains(x.Elem(), seen)
+		case *types.Map:
+			return contains(x.Key(), seen) || contains(x.Elem(), seen)
+		case *types.Struct:
+			for i := 0; i < x.NumFields(); i++ {
+				if contains(x.Field(i).Type(), seen) {
+					return true
+				}
+			}
+		case *types.Signature:
+			for _, tp := range []*types.Tuple{x.Params(), x.Results()} {
+				for i := 0; i < tp.Len(); i++ {
+					if contains(tp.At(i).Type(), seen) {
+						return true
+					}
+				}
+			}
+		}
+		return false
+	}
+	for _, p := range []*ssa.Package{c.server, c.cmd} {
+		for name, m := range p.Members {
+			switch x := m.(type) {
+			case *ssa.Global:
+				if contains(x.Type(), map[types.Type]bool{}) {
+					return false
+				}
+			case *ssa.Type:
+				if p == pkg && name == tn {
+					continue
+				}
+				if st, ok := x.Type().Underlying().(*types.Struct); ok {
+					for i := 0; i < st.NumFields(); i++ {
+						if contains(st.Field(i).Type(), map[types.Type]bool{}) {
+							return false
+						}
+					}
+				}
+			}
+		}
+	}
+	for _, fn := range c.modFuncs {
+		for _, b := range fn.Blocks {
+			for _, in := range b.Instrs {
+				switch x := in.(type) {
+				case *ssa.MakeInterface:
+					if contains(x.X.Type(), map[types.Type]bool{}) {
+						return false
+					}
+				case *ssa.Send:
+					if contains(x.X.Type(), map[types.Type]bool{}) {
+						return false
+					}
+				case *ssa.MakeClosure:
+					for _, b := range x.Bindings {
+						if contains(b.Type(), map[types.Type]bool{}) {
+							return false
+						}
+					}
+				case *ssa.Go:
+					for _, a := range x.Call.Args {
+						if contains(a.Type(), map[types.Type]bool{}) {
+							return false
+						}
+					}
+				}
+			}
+		}
+	}
+	return true
 }
 
 // renamedMethod: the reference tree's method `name` of type nt is gone; if exactly one baseline method of that type is
